@@ -48,11 +48,11 @@ def run(tier, rep, work):
         if p.returncode != 0:
             raise C.Inconclusive("hnsw driver failed: " + p.stderr[-1500:])
         open(os.path.join(sub, "HNSWT_m.cfg"), "w").write(open(os.path.join(sub, "HNSWT.cfg")).read().replace("M = 2", "M = %d" % m))
-        v = C.validate_trace(sub, "HNSWT", "HNSWT_m.cfg", trace, max_rejects=8)
+        v = C.validate_trace(sub, "HNSWT", "HNSWT_m.cfg", trace, max_rejects=40)
         if "EVENTS %d" % v["events"] not in p.stdout:
             raise C.Inconclusive("event count mismatch")
         rep.trace_run("lattice M=%d conformance" % m, v, histories_nontrivial=C.distinct_nontrivial(trace, {"add", "remove", "flush"}, {"search"}))
-        drift = {rj["history_start"] for rj in v["rejected"]}
+        drift = {rj["history_start"] for rj in v["rejected"]} | set(v["unvalidated"])     # not shown to be the specification's graph = not explained
         rr, reports = C.run_reports(sub, "HNSWP", "HNSWP.cfg", trace)
         rep.model_run("HNSWP monitors lattice M=%d" % m, rr, "property monitors on the exported real graphs")
         lines = C.read_trace(trace)
@@ -74,7 +74,7 @@ def run(tier, rep, work):
             counts[kind] = counts.get(kind, 0) + 1
             ev = json.loads(lines[idx])
             explained = h not in drift       # the real graph of this history is the specification's graph, edge for edge
-            small = ev.get("op") == "search" and ev.get("resident", 99) <= 2 * m
+            small = ev.get("op") in ("search", "search.lowef") and ev.get("resident", 99) <= 2 * m
             if explained and kind == "reach0" and "C12-orphaning" in kf:
                 rep.known_finding("C12-orphaning", "live vertex without a bottom-layer path from the entry point, graph explained edge for edge by HNSW.tla "
                                   "(M-nearest pruning / Flush removing the only in-links); first seen: M=%d event %d" % (m, idx))
